@@ -510,6 +510,9 @@ class Interp(ExprMixin, StmtMixin):
             for label, clause in c.requires.items():
                 g = as_bool(self.spec_eval_in(clause, env))
                 self.oblige("pre:%s:%s@%d" % (short, label, line), g, line, clause=clause)
+            # caller-side guards: "this callee is only invoked when ..." (stated in the caller's contract, over the caller's state)
+            for label, clause in self.contract.call_guards.get(short, {}).items():
+                self.oblige("guard:%s:%s@%d" % (short, label, line), as_bool(self.spec_eval(clause, extra_env=self.entry_env)), line, clause=clause)
             # termination of recursion inside an SCC
             if c.scc and self.contract.scc == c.scc and c.decreases and self.contract.decreases:
                 mine = [as_int(self.spec_eval_in(d, self.entry_env)) for d in self.contract.decreases]
